@@ -42,21 +42,27 @@ SugDist(o, a, b) == IF "lev" \in DOMAIN o /\ o.lev THEN Lev(a, b) ELSE DL(a, b)
 SugCand(idx, o) == {t \in Lexicon(idx, o.f) : /\ SugDist(o, o.word, t) <= o.k
                                               /\ Len(t) >= Min2(o.p, Len(o.word))
                                               /\ SubSeq(t, 1, Min2(o.p, Len(o.word))) = SubSeq(o.word, 1, Min2(o.p, Len(o.word)))}
+\* (o.byfreq = TRUE is NOT the property either: the ranking of the recorded finding "suggestions are ranked with
+\* the constant maxdist, so by frequency only, and include the word itself" - used only to recognise that finding
+\* precisely: an observation is an instance of it iff it is exactly right under this ranking)
+ByFreq(o) == "byfreq" \in DOMAIN o /\ o.byfreq
 SugBetter(idx, o, a, b) ==      \* a is strictly better than b
-  \/ SugDist(o, o.word, a) < SugDist(o, o.word, b)
-  \/ (SugDist(o, o.word, a) = SugDist(o, o.word, b) /\ TermFreq(idx, o.f, a) > TermFreq(idx, o.f, b))
+  IF ByFreq(o) THEN TermFreq(idx, o.f, a) > TermFreq(idx, o.f, b)
+  ELSE \/ SugDist(o, o.word, a) < SugDist(o, o.word, b)
+       \/ (SugDist(o, o.word, a) = SugDist(o, o.word, b) /\ TermFreq(idx, o.f, a) > TermFreq(idx, o.f, b))
 SuggestFacts(idx, o) ==
   LET L == o.list
       cand == SugCand(idx, o)
       LS == ToSet(L)
   IN [existing_within_distance |-> LS \subseteq cand /\ Cardinality(LS) = Len(L),
-      not_the_word_itself |-> o.word \notin LS,
+      not_the_word_itself |-> ByFreq(o) \/ o.word \notin LS,
       closer_then_more_frequent_first |-> \A i, j \in DOMAIN L : i < j => ~SugBetter(idx, o, L[j], L[i]),
       \* a list shorter than the limit was not cut: it names every candidate
       nothing_missing_below_the_limit |-> Len(L) < o.limit => (cand \ {o.word}) \subseteq LS,
       limit_keeps_the_best |-> /\ Len(L) <= o.limit
-                               /\ \A t \in (cand \ {o.word}) \ LS : /\ Len(L) >= o.limit
-                                                                     /\ \A x \in LS \ {o.word} : ~SugBetter(idx, o, t, x)]
+                               /\ \A t \in (cand \ (IF ByFreq(o) THEN {} ELSE {o.word})) \ LS :
+                                       /\ Len(L) >= o.limit
+                                       /\ \A x \in LS \ (IF ByFreq(o) THEN {} ELSE {o.word}) : ~SugBetter(idx, o, t, x)]
 
 \* ---- query correction (Searcher.correct_query; C19) -------------------------------------
 \* o = [f, words, k, p, qterms, sterms]: words = the terms of the typed query in order, qterms = the terms of
